@@ -72,6 +72,8 @@ type advCase struct {
 	// generation 1 blocks for StallFor before the packet is on the wire.
 	StallMC  int
 	StallFor time.Duration
+	// DeadlineLat: the interruption of the reader takes this long to take effect.
+	DeadlineLat time.Duration
 	StopHook      string
 	StopHookAfter time.Duration
 	StopHookDelay time.Duration
@@ -152,6 +154,7 @@ func advRun(t *testing.T, c *advCase) *advResult {
 		h.st.ReadLatency = c.FwdLat
 		h.connSetup = func(cn *vfake.Conn) {
 			cn.WriteLatency = c.WriteLat
+			cn.DeadlineLatency = c.DeadlineLat
 			if c.StallMC > 0 && cn.Gen == 1 {
 				var k atomic.Int32
 				cn.WriteLatencyOf = func(_ int, dst netip.Addr) time.Duration {
